@@ -1,5 +1,6 @@
 import json
 import os
+import time
 
 import vlib
 
@@ -17,34 +18,78 @@ META = {
                   "Non-host back ends run on an AVX2 CPU (through H1 and -C target-feature): code paths are exercised, "
                   "absence of an instruction is not. AVX and SSE4.1 are the same Machine type; they differ only in the "
                   "#[target_feature] attributes of the wrapper, which the probe cannot observe. No axioms.",
-    "rule": "battery derived from the seed (same inputs in every configuration): ChaCha20/Ietf/XChaCha8 seek+apply over "
-            "buffered/narrow/wide(256-byte)/tail shapes and counter-word boundaries, guts refill/refill4, BLAKE-224/256/384/512 "
-            "over all padding classes, JH-256/512 digests, F8 through Compressor and f8_impl::<M> on structured/random inputs, "
-            "Groestl/Skein controls, and 3 selection probes (type_name of the Machine each macro selects); distinct = distinct "
+    "rule": "battery derived from the seed (same inputs in every configuration; case index i is the same input everywhere): 3 selection "
+            "probes (type_name of the Machine each macro selects), then the MINI battery (prefix of every battery: 10 ChaCha20/Ietf/XChaCha8 "
+            "seek+apply shapes incl. block counters at 2^16, 2^31, 2^32 (wide and narrow path), 2^48, 2^57; guts refill/refill4 at counters "
+            "0xfffffffe and 2^48-1; BLAKE-224/256/384/512 and JH-224/256/384/512 at one-block / two-final-block lengths; F8 through Compressor and "
+            "one directly instantiated Machine), then the main battery: ChaCha20/Ietf/XChaCha8 seek+apply over "
+            "buffered/narrow/wide(256-byte)/tail shapes and counter-word boundaries, guts refill/refill4 (d words after compared with the "
+            "model; the NEXT block compared across configurations, which observes the key rows), BLAKE-224/256/384/512 "
+            "over all padding classes, JH-224/256/384/512 digests, F8 through Compressor and f8_impl::<M> on structured/random inputs, "
+            "Groestl/Skein controls. Quick tier: the full battery on rt-detect, rt-sse2..rt-avx2 (hook H1), no_simd-std in debug; the mini "
+            "battery on EVERY compile-time configuration (ct-sse2, ct-ssse3, ct-sse4.1, ct-avx, ct-avx2: --no-default-features + -C target-feature; "
+            "no_simd-nostd) in debug and on rt-sse2, rt-detect, no_simd-std in RELEASE. Thorough: full battery everywhere, release also for "
+            "no_simd-std, no_simd-nostd, ct-sse2, ct-avx2. distinct = distinct "
             "(configuration,kind,input); all are non-trivial (selection probes and every computation have inputs); per configuration every "
-            "case is compared with the model inside coqc; across configurations (res,out,aux) must be equal",
+            "case is compared with the model inside coqc; across configurations (res,out,aux) must be equal on every case two configurations both run; "
+            "a reference runner that does not build is a reported problem (no-failing-input-found), the cross-comparison still runs",
     "assumptions": ["little-endian x86-64 host reporting sse2..avx2 (checked: host_feature_mask = 31)"],
 }
 
 LEVELS = {1: "sse2", 2: "ssse3", 3: "sse4.1", 4: "avx", 5: "avx2"}
 
 
-def _configs(ctx):
-    """(label, build kwargs, forced level). 12 configurations of DESIGN 5.3 (+ unforced detection)."""
+def _build_kinds():
     std = dict(features=(), rustflags=(), no_default=False)
-    cfgs = [("rt-detect", std, 0)]
-    cfgs += [("rt-%s" % LEVELS[l], std, l) for l in range(1, 6)]
-    cfgs.append(("no_simd-std", dict(features=("no_simd",), rustflags=(), no_default=False), 0))
-    ct = [("ct-sse2", dict(features=(), rustflags=(), no_default=True), 0)]
+    b = {"std": std,
+         "no_simd-std": dict(features=("no_simd",), rustflags=(), no_default=False),
+         "no_simd-nostd": dict(features=("no_simd",), rustflags=(), no_default=True),
+         "ct-sse2": dict(features=(), rustflags=(), no_default=True)}
     for l in range(2, 6):
-        ct.append(("ct-%s" % LEVELS[l],
-                   dict(features=(), rustflags=("-C", "target-feature=+%s" % LEVELS[l]), no_default=True), 0))
-    if ctx.quick:
-        cfgs.append(ct[ctx.seed % len(ct)])
+        b["ct-%s" % LEVELS[l]] = dict(features=(), rustflags=("-C", "target-feature=+%s" % LEVELS[l]), no_default=True)
+    return b
+
+
+CT = ["ct-%s" % LEVELS[l] for l in range(1, 6)]
+
+
+def _configs(quick):
+    """(label, build kwargs, forced level, profile, battery). The 13 configurations of DESIGN 5.3 (+ unforced detection).
+    battery: "full" (quick or thorough volume) or "mini" (selection probes + the fixed prefix of every battery).
+    quick tier: the seven run-time configurations run the full battery in debug as before; EVERY compile-time
+    configuration (five target-feature levels, no_simd without std) runs the mini battery in debug; the release profile
+    runs the mini battery on the SSE2 machine, the AVX2 machine (detection) and the portable back end."""
+    b = _build_kinds()
+    cfgs = [("rt-detect", b["std"], 0, "debug", "full")]
+    cfgs += [("rt-%s" % LEVELS[l], b["std"], l, "debug", "full") for l in range(1, 6)]
+    cfgs.append(("no_simd-std", b["no_simd-std"], 0, "debug", "full"))
+    if quick:
+        cfgs += [(c, b[c], 0, "debug", "mini") for c in CT]
+        cfgs.append(("no_simd-nostd", b["no_simd-nostd"], 0, "debug", "mini"))
+        cfgs += [("rt-sse2/release", b["std"], 1, "release", "mini"),
+                 ("rt-detect/release", b["std"], 0, "release", "mini"),
+                 ("no_simd-std/release", b["no_simd-std"], 0, "release", "mini")]
     else:
-        cfgs.append(("no_simd-nostd", dict(features=("no_simd",), rustflags=(), no_default=True), 0))
-        cfgs += ct
+        cfgs.append(("no_simd-nostd", b["no_simd-nostd"], 0, "debug", "full"))
+        cfgs += [(c, b[c], 0, "debug", "full") for c in CT]
+        cfgs += [("rt-detect/release", b["std"], 0, "release", "full")]
+        cfgs += [("rt-%s/release" % LEVELS[l], b["std"], l, "release", "full") for l in range(1, 6)]
+        # release x portable / compile-time selection (was in no tier)
+        cfgs += [("%s/release" % c, b[c], 0, "release", "full") for c in ("no_simd-std", "no_simd-nostd", "ct-sse2", "ct-avx2")]
     return cfgs
+
+
+def warm():
+    """called by setup.sh: pre-build every configuration of the quick tier (one cargo target directory per
+    -C target-feature set under _build/target-<hash>; the first build of one costs 30-60 s, later ones are no-ops)"""
+    seen = set()
+    for label, bk, level, profile, battery in _configs(True):
+        key = (profile, tuple(sorted(bk.items())))
+        if key in seen:
+            continue
+        seen.add(key)
+        binary, log = vlib.cargo_build(profile=profile, bin_name="h_dispatch", **bk)
+        print("warm C03 %s: %s" % (label, "ok" if binary else "FAILED"))
 
 
 def _needs_more(observed, allowed_mask):
@@ -62,72 +107,84 @@ def run(ctx):
         ctx.log("reference runner Run/Dispatch.vo unavailable; falling back to cross-configuration comparison only")
         ctx.assumptions.append("model reference unavailable in this run (Run/Dispatch.vo did not build): "
                                "configurations were only compared with each other")
+        # the model cannot be run: the tie between theorems and code is not established in this run (DESIGN 2.1 step 4);
+        # the search (cross-configuration comparison, the property stated directly on the implementation) runs anyway
+        ctx.violation({"kind": "correspondence-not-evaluable", "errors": [log[-1500:] if isinstance(log, str) else str(log)[-1500:]],
+                       "note": "Run/Dispatch.vo does not build: no configuration is compared with the model; "
+                               "the configurations are still compared with each other"}, no_input=True)
     bseed = ctx.seed
     thorough = 0 if ctx.quick else 1
-    profiles = ("debug",) if ctx.quick else ("debug", "release")
     binaries = {}
     results = {}      # label -> (summary, cases)
     uniform_candidates = {}   # case index -> set of labels whose output differs from the model
-    for profile in profiles:
-        for label, bk, level in _configs(ctx):
-            if profile == "release" and not label.startswith("rt-"):
-                continue   # release: the std build only (all run-time levels)
-            full = label if profile == "debug" else label + "/release"
-            key = (profile, tuple(sorted(bk.items())))
-            if key not in binaries:
-                binary, blog = vlib.cargo_build(profile=profile, bin_name="h_dispatch", **bk)
-                if binary is None:
-                    raise vlib.CheckError("harness build failed (%s): %s" % (full, blog[-2000:]))
-                binaries[key] = binary
-            binary = binaries[key]
-            args = ["--bseed", bseed, "--level", level, "--thorough", thorough]
-            if ok_runner:
-                s = vlib.correspondence(ctx, binary, "battery", args, full, shards=8 if ctx.quick else 16)
-            else:
-                d = os.path.join(ctx.work, full.replace("/", "_"))
-                os.makedirs(d, exist_ok=True)
-                s = vlib.run_harness(binary, ["battery", "--seed", 0, "--shards", 16, "--out", d] + args)
-                ctx.add_cov(s, full)
-                s.update({"failing": [], "_config": full, "_dir": d, "_shards": 16,
-                          "_cases": json.load(open(os.path.join(d, "cases.json"))),
-                          "_harness": [os.path.basename(binary), "battery"] + [str(a) for a in args]})
-            cases = s["_cases"] or []
-            results[full] = (s, cases)
-            ctx.log("%s: %d cases, selected %s, model disagreements %s, deaths %s" % (
-                full, s.get("evaluations", 0),
-                {k: v.replace("ppv_lite86::x86_64::", "").replace("ppv_lite86::generic::", "") for k, v in s.get("selected", {}).items()}, s["failing"][:5], s.get("child_deaths", [])))
-            if s.get("host_feature_mask") != 31:
-                raise vlib.CheckError("host does not report sse2..avx2 (mask %s): forced levels would not be what they say"
-                                      % s.get("host_feature_mask"))
-            # selection probes against Model/Dispatch.v
-            for i in s["failing"]:
-                c = cases[i] if i < len(cases) else None
-                if c is not None and c["kind"] == "selection":
-                    observed = int(c["out"] or "09", 16)
-                    b = s["build"]
-                    allowed = b["target_feature_mask"] if not b["std"] else \
-                        ({0: 31, 1: 1, 2: 3, 3: 7, 4: 15, 5: 31}[s["forced_level"]])
-                    rep = vlib._case_report(ctx, s, i, "explain_c03", "C03_dispatch_total / C03_hook_is_cap")
-                    rep["observed_machine"] = c["aux"]
-                    rep["build"] = b
-                    rep["forced_level"] = s["forced_level"]
-                    if _needs_more(observed, allowed):
-                        rep["kind"] = "selected-machine-needs-features-the-configuration-does-not-have"
-                        rep["note"] = ("this macro arm instantiates a Machine whose code uses instructions outside the "
-                                       "feature set of the configuration: it faults on a CPU where the other back ends return")
-                        ctx.violation(rep)
-                    else:
-                        rep["kind"] = "correspondence-broken"
-                        rep["note"] = ("the Machine type selected by the macro is not the one Model/Dispatch.v selects; "
-                                       "results may still agree (no failing input derived)")
-                        ctx.violation(rep, no_input=True)
+    build_s = 0.0
+    for label, bk, level, profile, battery in _configs(ctx.quick):
+        full = label
+        key = (profile, tuple(sorted(bk.items())))
+        if key not in binaries:
+            t0 = time.time()
+            binary, blog = vlib.cargo_build(profile=profile, bin_name="h_dispatch", **bk)
+            build_s += time.time() - t0
+            if binary is None:
+                raise vlib.CheckError("harness build failed (%s): %s" % (full, blog[-2000:]))
+            binaries[key] = binary
+        binary = binaries[key]
+        args = ["--bseed", bseed, "--level", level] + (["--mini", 1] if battery == "mini" else ["--thorough", thorough])
+        if ok_runner:
+            s = vlib.correspondence(ctx, binary, "battery", args, full, shards=8 if ctx.quick else 16)
+        else:
+            d = os.path.join(ctx.work, full.replace("/", "_"))
+            os.makedirs(d, exist_ok=True)
+            s = vlib.run_harness(binary, ["battery", "--seed", 0, "--shards", 16, "--out", d] + args)
+            ctx.add_cov(s, full)
+            s.update({"failing": [], "_config": full, "_dir": d, "_shards": 16,
+                      "_cases": json.load(open(os.path.join(d, "cases.json"))),
+                      "_harness": [os.path.basename(binary), "battery"] + [str(a) for a in args]})
+        cases = s["_cases"] or []
+        results[full] = (s, cases)
+        ctx.log("%s: %d cases, selected %s, model disagreements %s, deaths %s" % (
+            full, s.get("evaluations", 0),
+            {k: v.replace("ppv_lite86::x86_64::", "").replace("ppv_lite86::generic::", "") for k, v in s.get("selected", {}).items()}, s["failing"][:5], s.get("child_deaths", [])))
+        if s.get("host_feature_mask") != 31:
+            raise vlib.CheckError("host does not report sse2..avx2 (mask %s): forced levels would not be what they say"
+                                  % s.get("host_feature_mask"))
+        # selection probes against Model/Dispatch.v
+        for i in s["failing"]:
+            c = cases[i] if i < len(cases) else None
+            if c is not None and c["kind"] == "selection":
+                observed = int(c["out"] or "09", 16)
+                b = s["build"]
+                allowed = b["target_feature_mask"] if not b["std"] else \
+                    ({0: 31, 1: 1, 2: 3, 3: 7, 4: 15, 5: 31}[s["forced_level"]])
+                rep = vlib._case_report(ctx, s, i, "explain_c03", "C03_dispatch_total / C03_hook_is_cap")
+                rep["observed_machine"] = c["aux"]
+                rep["build"] = b
+                rep["forced_level"] = s["forced_level"]
+                if _needs_more(observed, allowed):
+                    rep["kind"] = "selected-machine-needs-features-the-configuration-does-not-have"
+                    rep["note"] = ("this macro arm instantiates a Machine whose code uses instructions outside the "
+                                   "feature set of the configuration: it faults on a CPU where the other back ends return")
+                    ctx.violation(rep)
                 else:
-                    uniform_candidates.setdefault(i, set()).add(full)
+                    rep["kind"] = "correspondence-broken"
+                    rep["note"] = ("the Machine type selected by the macro is not the one Model/Dispatch.v selects; "
+                                   "results may still agree (no failing input derived)")
+                    ctx.violation(rep, no_input=True)
+            else:
+                uniform_candidates.setdefault(i, set()).add(full)
 
     # ---- cross-configuration comparison (the property itself, on the implementation)
     labels = list(results)
     ref_label = labels[0]
-    ncases = len(results[ref_label][1])
+    ncases = max(len(results[lab][1]) for lab in labels)
+    if len(results[ref_label][1]) != ncases:
+        raise vlib.CheckError("the reference configuration does not run the longest battery")
+    nmini = min(len(results[lab][1]) for lab in labels)
+    for lab in labels:    # index i must mean the same input everywhere (the mini battery is a prefix)
+        for i in (0, nmini - 1, len(results[lab][1]) - 1):
+            a, b0 = results[lab][1][i], results[ref_label][1][i]
+            if (a["kind"], a["input"]) != (b0["kind"], b0["input"]):
+                raise vlib.CheckError("battery of %s is not a prefix of the battery of %s (case %d)" % (lab, ref_label, i))
     reported = 0
     disagreeing = 0
     for i in range(ncases):
@@ -135,8 +192,7 @@ def run(ctx):
         for lab in labels:
             cs = results[lab][1]
             if i >= len(cs):
-                groups.setdefault(("missing",), []).append(lab)
-                continue
+                continue   # a mini battery is a prefix of the full one: this configuration does not run case i
             c = cs[i]
             if c["kind"] == "selection":
                 break
@@ -161,8 +217,11 @@ def run(ctx):
                     ctx.violation(rep)
     # ---- model disagreements shared by every configuration: the property (a relation between
     # configurations) holds on these inputs; the deviation belongs to the conformance property
-    uniform = [i for i, labs in uniform_candidates.items() if len(labs) == len(labels)]
+    uniform = [i for i, labs in uniform_candidates.items()
+               if len(labs) == sum(1 for lab in labels if i < len(results[lab][1]))]
     ctx.cov["cross_configuration"] = {"configurations": labels, "cases_compared": ncases,
+                                      "cases_compared_in_every_configuration": nmini,
+                                      "cargo_build_seconds": round(build_s, 1),
                                       "cases_on_which_configurations_disagree": disagreeing,
                                       "cases_where_all_configurations_differ_from_model_identically": len(uniform),
                                       "reference": "model inside Coq" if ok_runner else "unavailable"}
